@@ -18,7 +18,13 @@ func (y CheckWhen) CheckContainerPostConstraints(r ChildRequest, s *Selection) (
 }
 
 func (y CheckWhen) CheckFieldPreConstraints(r *FieldRequest, hnd *ValueHandle) (bool, error) {
-	return y.check(r.Selection, r.Meta)
+	s := r.Selection
+	if s != nil && s.parent != nil && meta.IsLeaf(s.Meta()) {
+		// a selection on the leaf itself (Find("leaf").Get()): its 'when' is about the
+		// container that holds the leaf, as it is when the container is read
+		s = s.parent
+	}
+	return y.check(s, r.Meta)
 }
 
 func (y CheckWhen) CheckListPostConstraints(r ListRequest, child *Selection, key []val.Value) (bool, bool, error) {
